@@ -109,6 +109,21 @@ def run_shard(desc):
     elif kind == "special":
         for s in SPECIALS:
             items.append(("special", s, None))
+    elif kind == "strings":
+        # every payload of up to 5 characters over {a, ', ", backslash, blank} between either quote, alone and inside a list / an
+        # operand position: whatever of these the parser accepts must render to text that re-parses to the same tree
+        import itertools
+        k = 0
+        for L in range(0, 6):
+            for chars in itertools.product("a'\"\\ ", repeat=L):
+                payload = "".join(chars)
+                for q_ in "'\"":
+                    k += 1
+                    if k % nshards != si:
+                        continue
+                    lit = q_ + payload + q_
+                    items.append(("strings", lit, None))
+                    items.append(("strings", rnd.choice(["[%s, 1]", "x + %s", "f(%s)", "{%s: %s}", "%s == %s ? 1 : 2", "- %s ++"]).replace("%s", lit), None))
     elif kind == "long":
         for _ in range(n):
             if rnd.random() < 0.25:
@@ -282,7 +297,7 @@ def run(rep, tier):
     rep.assumptions = ["round trip is judged on trees the parser produced for grammar-valid programs whose names are not operator words", "structural comparison includes number mantissa and scale"]
     common.build("verifdbg")
     common.build("release")
-    shards = [("special", 0, 1, 0, "verifdbg")]
+    shards = [("special", 0, 1, 0, "verifdbg")] + [("strings", i, 4, 0, "release" if i % 2 else "verifdbg") for i in range(4)]
     for i in range(4):
         shards.append(("nest2", i, 4, 0, "verifdbg" if i % 2 else "release"))
     for i in range(16):
